@@ -56,10 +56,10 @@ CHECKS = {
   technique="TLA+ spec (SM.tla) model-checked with TLC; TLC-enumerated adversary behaviours replayed into NfcSession.DoAPDU against an independent chip; bit-flip sweep"),
  "C10": dict(
   category="model_checking",
-  text="SM.tla honest-link invariants (Lockstep, HonestDelivers, across the wrap, any protected status) checked by TLC for the intended and as-built designs; SMCmd.tla specifies the structure of a protected command (class 0C, DO'87'/'85' with padding indicator by INS parity, DO'97' iff Ne, DO'8E', outer Lc/Le via Apdu.tla) for 1036 command shapes (data lengths around block / 255 / 256 / 65535 boundaries, 7 Ne values, odd/even INS, 3DES/AES); every shape is sent through the real DoAPDU inside a 4-exchange fault-free history with random protected statuses: wire bytes are compared with the specified structure, the independent chip must authenticate and decrypt to the intended command, and terminal and chip counters must be equal after every exchange.",
+  text="SM.tla honest-link invariants (Lockstep, HonestDelivers, across the wrap, any protected status) checked by TLC for the intended and as-built designs; SMCmd.tla specifies the structure of a protected command (class 0C, DO'87'/'85' with padding indicator by INS parity, DO'97' iff Ne, DO'8E', outer Lc/Le via Apdu.tla) for 1036 command shapes (data lengths around block / 255 / 256 / 65535 boundaries, 7 Ne values, odd/even INS, 3DES/AES); every shape is sent through the real DoAPDU inside a 4-exchange fault-free history with random protected statuses: wire bytes are compared with the specified structure, the independent chip must authenticate and decrypt to the intended command, and terminal and chip counters must be equal after every exchange; in whole reads (BAC, PACE, PACE-CAM, CA changing the keys) no command reaches the chip unprotected once a protected one has. Thorough: the counter discipline for histories of ANY length is an inductive invariant of Lockstep.tla discharged with Apalache (initiation, consecution, IndInv => Lockstep for moduli incl. 2^64 and 2^128, and a chip incrementing once per exchange must break it).",
   design_ref="DESIGN.md §6 C10",
   note="DO'85' carries the padding indicator as the property states (chipsim option); commands whose protected form exceeds an extended APDU are outside.",
-  technique="TLA+ specs (SM.tla, SMCmd.tla, Apdu.tla) with TLC; specified command structures replayed into DoAPDU against an independent chip"),
+  technique="TLA+ specs (SM.tla, SMCmd.tla, Apdu.tla) with TLC; specified command structures replayed into DoAPDU against an independent chip; inductive invariant (Lockstep.tla) with Apalache in the thorough tier"),
  "C05": dict(
   category="model_checking",
   text="Bac.tla models the mutual authentication symbolically with the answer to EXTERNAL AUTHENTICATE coming from the chip, a replay of an earlier run, a forgery under another document's keys, a mutated cryptogram, a key holder not echoing RND.IFD / RND.IC, wrong lengths or an error status, for equal and different terminal / chip MRZs; TLC checks Completeness, Soundness, FailClosed on all 36 scenarios; each is executed (12 / 200 repetitions with fresh randoms) with the real bac.DoBAC against the chip simulator, edge terminal randoms through the randomness hook, and every well-formed zone of Mrz.tla (all layouts, short / extended numbers) plus generated zones is opened with the chip personalised from the SPECIFICATION's MRZ information.",
